@@ -50,6 +50,17 @@ PROPS = {
         "namespace": "Richchk.Props.C01",
         "trusted": ["hand model of the chunk loop / STR string loop (Model/Chunk.lean, Model/Section.lean), tied by the rt/dec correspondence"],
     },
+    "C04": {
+        "targets": ["RichchkModel.Props.C04"],
+        "harness": "edit_h",
+        "theorems_file": "RichchkModel/Props/C04.lean",
+        "namespace": "Richchk.Props.C04",
+        "trusted": [
+            "hand model Model/Rich.lean + Model/RichEnc.lean + Model/RichEdit.lean (rich decode/encode, rebuilders, editors, save+reload), tied by byte-comparing `edit` / `cycle` with the real code on every generated history",
+            "independent reader harness/refchk.py driven by the hand-transcribed specification tables as the oracle for what the saved file holds",
+            "the harness's construction of library objects from the abstract history (harness/edit_h.py Real), cross-checked by the reload-equality oracle",
+        ],
+    },
     "C05": {
         "targets": ["RichchkModel.Props.C05"],
         "harness": "trig_h",
@@ -66,6 +77,17 @@ PROPS = {
         "theorems_file": "RichchkModel/Props/C06.lean",
         "namespace": "Richchk.Props.C06",
         "trusted": ["Spec/Layouts.lean: hand transcription of the Scenario.chk section layouts"],
+    },
+    "C07": {
+        "targets": ["RichchkModel.Props.C07"],
+        "harness": "edit_h",
+        "theorems_file": "RichchkModel/Props/C07.lean",
+        "namespace": "Richchk.Props.C07",
+        "trusted": [
+            "hand model Model/Rich.lean + Model/RichEnc.lean + Model/RichEdit.lean (rich decode/encode, rebuilders, editors, save+reload), tied by byte-comparing `edit` / `cycle` with the real code on every generated history",
+            "independent reader harness/refchk.py driven by the hand-transcribed specification tables as the oracle for what the saved file holds",
+            "the harness's construction of library objects from the abstract history (harness/edit_h.py Real), cross-checked by the reload-equality oracle",
+        ],
     },
     "C08": {
         "targets": ["RichchkModel.Props.C08"],
